@@ -695,9 +695,13 @@ def with_twin(G_: G, seed: int) -> Any:
     twin = reflect.clone_node(v)
     used = [False]
 
+    visible = {id(n) for n in G_.nodes}
+
     def fn2(n: Any, vals: dict[str, Any]) -> Any:
-        if not used[0]:
+        if not used[0] and id(n) in visible:
             for k, val in vals.items():
+                if k == "indices":
+                    continue
                 if val is v:
                     vals[k] = twin
                     used[0] = True
@@ -712,7 +716,8 @@ def with_twin(G_: G, seed: int) -> Any:
         gd = reflect.rebuild(G_.g, fn2)
     except Exception:  # noqa: BLE001
         return None
-    if not used[0] or not any(n is v for n in reflect.walk(gd)):
+    if not used[0] or not any(
+            n is v for n in reflect.walk(gd, skip_kinds=reflect.MAPPER_INVISIBLE)):
         try:
             gd = pt.make_dict_of_named_arrays({"vf_orig": v, "vf_twin": twin})
         except Exception:  # noqa: BLE001
